@@ -1352,6 +1352,72 @@ func c08container(c *Ctx, r *Result) {
 	_ = epos
 	r.Check(d1 == enc, "C08.7", "writer.GZIPFilter.Apply~writer.GZIPFilter.Remove#same-container", p1, "encoder uses "+enc+", writer-side decoder "+d1)
 	r.Check(d2 == enc, "C08.7", "writer.GZIPFilter.Apply~core.applyDeflate#same-container", p2, "encoder uses "+enc+", reader-side decoder "+d2+" (a gzip stream is not a zlib stream)")
+	// the whole deflate arm of the reader's dispatch: every stream reader opened below it is of the encoder's container
+	if af := c.FnOpt("core.applyFilter"); af != nil {
+		readersBelow := func(root *ssa.Function) map[string]string {
+			out := map[string]string{}
+			for f := range c.Reach([]*ssa.Function{root}, func(f *ssa.Function) bool { return !libPackage(fnPkgPath(f)) }) {
+				if f.Blocks == nil || !libPackage(fnPkgPath(f)) {
+					continue
+				}
+				for _, site := range callsIn(f) {
+					if g := site.Common().StaticCallee(); g != nil && g.Pkg != nil && strings.HasPrefix(g.Pkg.Pkg.Path(), "compress/") && strings.HasPrefix(g.Name(), "NewReader") {
+						out[g.Pkg.Pkg.Path()] = c.InstrPos(site.(ssa.Instruction))
+					}
+				}
+			}
+			return out
+		}
+		var arm map[*ssa.BasicBlock]bool
+		for _, b := range af.Blocks {
+			ifi, ok := b.Instrs[len(b.Instrs)-1].(*ssa.If)
+			if !ok {
+				continue
+			}
+			bo, ok := ifi.Cond.(*ssa.BinOp)
+			if !ok || bo.Op != token.EQL {
+				continue
+			}
+			k, isK := constInt(bo.Y)
+			if !isK || k != 1 {
+				continue
+			}
+			if key, _ := fieldLoadKey(bo.X); !strings.HasSuffix(key, ".ID") {
+				continue
+			}
+			arm = edgeRegion(b, b.Succs[0])
+		}
+		if arm == nil {
+			r.Undec("C08.7", "core.applyFilter#deflate-arm", c.Pos(af.Pos()), "the arm for filter id 1 was not found in the dispatch")
+		} else {
+			found := map[string]string{}
+			for _, site := range callsIn(af) {
+				in := site.(ssa.Instruction)
+				if !arm[in.Block()] {
+					continue
+				}
+				g := site.Common().StaticCallee()
+				if g == nil {
+					continue
+				}
+				if g.Pkg != nil && strings.HasPrefix(g.Pkg.Pkg.Path(), "compress/") && strings.HasPrefix(g.Name(), "NewReader") {
+					found[g.Pkg.Pkg.Path()] = c.InstrPos(in)
+				} else if libPackage(fnPkgPath(g)) {
+					for k, v := range readersBelow(g) {
+						found[k] = v
+					}
+				}
+			}
+			okArm, where, names := true, c.Pos(af.Pos()), []string{}
+			for _, k := range sortedKeys(found) {
+				names = append(names, k)
+				if k != enc {
+					okArm, where = false, found[k]
+				}
+			}
+			r.Check(okArm && len(found) > 0, "C08.7", "core.applyFilter#deflate-arm-opens-only-the-encoder's-container", where, "encoder uses "+enc+"; the reader's arm for filter id 1 opens "+strings.Join(names, ", ")+" (a decoder chosen by sniffing the first payload bytes misreads every stream whose header bytes differ from the sniffed ones, e.g. another compression level)")
+		}
+	}
 	// shuffle: writer Encode puts elementSize into cd_values[0]; the reader takes clientData[0]
 	if encf := c.Fn(r, "writer.ShuffleFilter.Encode"); encf != nil {
 		slot := int64(-1)
